@@ -1,3 +1,4 @@
+(* C05 - preservation of the global assertion ginv *)
 From Coq Require Import List Arith Bool Lia.
 Import ListNotations.
 Require Import MayV.Sync.MutexModel MayV.Sync.MutexInv.
